@@ -138,7 +138,7 @@ pub fn run(tier: Tier, seed: u64) -> i32 {
         "timed lower bound is exact because the driver's timer starts before the go line is written and stops after bestmove is read, on the same monotonic clock family as the engine's".into(),
     ];
     // pure part -----------------------------------------------------------------------------
-    let jobs = EDGE.len() + tier.pick(32, 256);
+    let jobs = EDGE.len() + tier.pick(128, 1600);
     let results = par::par_map(jobs, |j| {
         let mut acc = Acc::new();
         let mut rng = Rng::stream(seed, j as u64);
